@@ -35,6 +35,36 @@ pub struct Flat { pub a: u8, #[serde(flatten)] pub rest: BTreeMap<String, i32> }
 pub struct NewT(pub i32);
 #[derive(Serialize, Deserialize, PartialEq, Debug, Clone)]
 pub struct Bytes(#[serde(with = "serde_bytes")] pub Vec<u8>);
+/// an enum with a tuple variant of zero fields (written {"Z":[]})
+#[derive(Serialize, Deserialize, PartialEq, Debug, Clone)]
+pub enum EnumZ { Z(), W(u8), S {}, N(Option<u8>), U(()), T(Option<u8>, ()) }
+impl Arb for EnumZ { fn arb(rng: &mut Rng) -> Self { match rng.below(6) { 0 => EnumZ::Z(), 1 => EnumZ::W(Arb::arb(rng)), 2 => EnumZ::S {}, 3 => EnumZ::N(Arb::arb(rng)), 4 => EnumZ::U(()), _ => EnumZ::T(Arb::arb(rng), ()) } } }
+/// a map keyed by floats (no std map can hold them: written and read through the serde map protocol by hand)
+#[derive(Debug, Clone)]
+pub struct FloatKeyMap(pub Vec<(f64, u8)>);
+// a map: equality does not depend on the order of the entries
+impl PartialEq for FloatKeyMap { fn eq(&self, o: &Self) -> bool { let key = |v: &Vec<(f64, u8)>| { let mut k: Vec<(u64, u8)> = v.iter().map(|(a, b)| (a.to_bits(), *b)).collect(); k.sort(); k }; key(&self.0) == key(&o.0) } }
+impl Serialize for FloatKeyMap { fn serialize<S: serde::Serializer>(&self, s: S) -> Result<S::Ok, S::Error> { use serde::ser::SerializeMap; let mut m = s.serialize_map(Some(self.0.len()))?; for (k, v) in &self.0 { m.serialize_entry(k, v)?; } m.end() } }
+impl<'de> Deserialize<'de> for FloatKeyMap { fn deserialize<D: serde::Deserializer<'de>>(d: D) -> Result<Self, D::Error> {
+    struct V; impl<'de> serde::de::Visitor<'de> for V { type Value = FloatKeyMap; fn expecting(&self, f: &mut std::fmt::Formatter) -> std::fmt::Result { f.write_str("a map keyed by floats") }
+        fn visit_map<A: serde::de::MapAccess<'de>>(self, mut a: A) -> Result<FloatKeyMap, A::Error> { let mut v = Vec::new(); while let Some((k, x)) = a.next_entry::<f64, u8>()? { v.push((k, x)); } Ok(FloatKeyMap(v)) } }
+    d.deserialize_map(V) } }
+impl Arb for FloatKeyMap { fn arb(rng: &mut Rng) -> Self { let mut v: Vec<(f64, u8)> = Vec::new(); for _ in 0..rng.below(4) { let k = match rng.below(5) { 0 => rng.below(9) as f64 - 4.0, 1 => 1e21, 2 => 2.5e-9, 3 => 0.5, _ => { let x: f64 = Arb::arb(rng); x } }; if !v.iter().any(|(q, _)| q.to_bits() == k.to_bits() || *q == k) { v.push((k, Arb::arb(rng))); } } FloatKeyMap(v) } }
+/// types that hold DOM values themselves (conversion square only: serde_json cannot read a sonic_rs::Value)
+#[derive(Serialize, Deserialize, PartialEq, Debug, Clone)]
+pub struct SWithValue { pub a: u8, pub v: sonic_rs::Value, pub arr: sonic_rs::Array, pub obj: sonic_rs::Object }
+impl Arb for sonic_rs::Value { fn arb(rng: &mut Rng) -> Self { loop { let d = { let mut g = crate::jt::Gen { rng }; g.doc() }; if let Ok(v) = sonic_rs::from_slice::<sonic_rs::Value>(&d) { if !has_dup_keys(&v) { return v; } } } } }
+fn has_dup_keys(v: &sonic_rs::Value) -> bool {
+    use sonic_rs::JsonContainerTrait;
+    if let Some(o) = v.as_object() { let mut seen = std::collections::HashSet::new(); for (k, x) in o.iter() { if !seen.insert(k.to_string()) || has_dup_keys(x) { return true; } } false }
+    else if let Some(a) = v.as_array() { a.iter().any(has_dup_keys) } else { false }
+}
+impl Arb for SWithValue { fn arb(rng: &mut Rng) -> Self {
+    use sonic_rs::JsonValueTrait;
+    let arr = loop { let v = sonic_rs::Value::arb(rng); if v.is_array() { break v.into_array().unwrap(); } if rng.chance(1, 3) { break sonic_rs::Array::new(); } };
+    let obj = loop { let v = sonic_rs::Value::arb(rng); if v.is_object() { break v.into_object().unwrap(); } if rng.chance(1, 3) { break sonic_rs::Object::new(); } };
+    SWithValue { a: Arb::arb(rng), v: Arb::arb(rng), arr, obj } } }
+fn de_none(_: &[u8]) -> J { json!({"panic":false,"sonic_ok":true,"sj_ok":true,"equal":true,"str_agrees":true,"sonic":"","sj":""}) }
 /// a position whose content is ignored (IgnoredAny): any well-formed value is accepted, nothing else
 #[derive(Debug, Clone)]
 pub struct Ign;
@@ -192,8 +222,12 @@ pub fn registry() -> Vec<TyEntry> {
         ty!("map_i128_u8", BTreeMap<i128, u8>), ty!("map_bool_u8", BTreeMap<bool, u8>), ty!("map_char_u8", BTreeMap<char, u8>), ty!("map_unitenum_u8", BTreeMap<UnitE, u8>),
         ty!("struct_ab", SAb), ty!("struct_deny", SDeny), ty!("struct_nested", SNested), ty!("newtype_i32", NewT),
         ty!("unit_enum", UnitE), ty!("enum_e", EnumE), ty!("vec_enum_e", Vec<EnumE>),
-        ty!("untagged", Untagged), ty!("internal", Internal), ty!("adjacent", Adjacent), ty!("flatten", Flat), ty!("bytes", Bytes),
+        ty!("enum_z", EnumZ), ty!("vec_enum_z", Vec<EnumZ>), ty!("map_f64_u8", FloatKeyMap), ty!("untagged", Untagged), ty!("internal", Internal), ty!("adjacent", Adjacent), ty!("flatten", Flat), ty!("bytes", Bytes),
         TyEntry { name: "borrow", de: de_cmp_borrow, conv: None, gen: Some(gen_borrow) },
+        // conversion square only (skipped by the differential suites: name starts with "dom_")
+        TyEntry { name: "dom_value", de: de_none, conv: Some(conv::<sonic_rs::Value>), gen: None },
+        TyEntry { name: "dom_struct_with_value", de: de_none, conv: Some(conv::<SWithValue>), gen: None },
+        TyEntry { name: "dom_vec_value", de: de_none, conv: Some(conv::<Vec<sonic_rs::Value>>), gen: None },
         tyg!("ignored", Ign, gen_any), tyg!("vec_ignored", Vec<Ign>, gen_any), tyg!("map_string_ignored", BTreeMap<String, Ign>, gen_any),
         tyg!("vec_bytebuf", Vec<serde_bytes::ByteBuf>, gen_vec_bytes), tyg!("struct_bytes", SBytes, gen_sbytes),
         tyg!("tup_bytes", (serde_bytes::ByteBuf, String, serde_bytes::ByteBuf), gen_tup_bytes), tyg!("map_string_bytebuf", BTreeMap<String, serde_bytes::ByteBuf>, gen_map_bytes),
@@ -262,23 +296,30 @@ fn eq_event(rng: &mut Rng) -> Option<J> {
 /// equality of a DOM value with a Rust primitive (C19: "agrees with comparison of primitives")
 fn eqprim_event(rng: &mut Rng) -> Option<J> {
     #[derive(Clone, Debug)]
-    enum P { I(i64), U(u64), F(f64), B(bool), S(String) }
+    enum P { I(i64), U(u64), F(f64), B(bool), S(String), V(Vec<i64>) }
     fn gen(rng: &mut Rng, kind: usize) -> P {
         match kind { 0 => P::I(if rng.chance(1, 3) { rng.below(5) as i64 - 2 } else { Arb::arb(rng) }), 1 => P::U(if rng.chance(1, 3) { rng.below(4) as u64 } else { Arb::arb(rng) }),
                      2 => P::F(if rng.chance(1, 3) { (rng.below(9) as f64 - 4.0) / 2.0 } else { Arb::arb(rng) }), 3 => P::B(Arb::arb(rng)),
-                     _ => P::S(if rng.chance(1, 3) { rng.pick(&["", "a", "1", "true", "null"]).to_string() } else { Arb::arb(rng) }) }
+                     4 => P::S(if rng.chance(1, 3) { rng.pick(&["", "a", "1", "true", "null"]).to_string() } else { Arb::arb(rng) }),
+                     _ => P::V((0..rng.below(5)).map(|_| rng.below(4) as i64).collect()) }
     }
-    fn text(p: &P) -> String { match p { P::I(x) => sonic_rs::to_string(x), P::U(x) => sonic_rs::to_string(x), P::F(x) => sonic_rs::to_string(x), P::B(x) => sonic_rs::to_string(x), P::S(x) => sonic_rs::to_string(x) }.unwrap_or_default() }
-    fn tv(p: &P) -> Option<sonic_rs::Value> { match p { P::I(x) => sonic_rs::to_value(x), P::U(x) => sonic_rs::to_value(x), P::F(x) => sonic_rs::to_value(x), P::B(x) => sonic_rs::to_value(x), P::S(x) => sonic_rs::to_value(x) }.ok() }
+    fn text(p: &P) -> String { match p { P::I(x) => sonic_rs::to_string(x), P::U(x) => sonic_rs::to_string(x), P::F(x) => sonic_rs::to_string(x), P::B(x) => sonic_rs::to_string(x), P::S(x) => sonic_rs::to_string(x), P::V(x) => sonic_rs::to_string(x) }.unwrap_or_default() }
+    fn tv(p: &P) -> Option<sonic_rs::Value> { match p { P::I(x) => sonic_rs::to_value(x), P::U(x) => sonic_rs::to_value(x), P::F(x) => sonic_rs::to_value(x), P::B(x) => sonic_rs::to_value(x), P::S(x) => sonic_rs::to_value(x), P::V(x) => sonic_rs::to_value(x) }.ok() }
     // (v == p, p == v) for the Rust primitive inside p
-    fn cmp(v: &sonic_rs::Value, p: &P) -> (bool, bool) { match p { P::I(x) => (*v == *x, *x == *v), P::U(x) => (*v == *x, *x == *v), P::F(x) => (*v == *x, *x == *v), P::B(x) => (*v == *x, *x == *v), P::S(x) => (*v == *x && *v == x.as_str(), *x == *v && x.as_str() == *v) } }
-    fn peq(a: &P, b: &P) -> bool { match (a, b) { (P::I(x), P::I(y)) => x == y, (P::U(x), P::U(y)) => x == y, (P::F(x), P::F(y)) => x == y, (P::B(x), P::B(y)) => x == y, (P::S(x), P::S(y)) => x == y, _ => false } }
-    let kinds = ["i64", "u64", "f64", "bool", "str"];
-    let k = rng.below(5);
+    fn cmp(v: &sonic_rs::Value, p: &P) -> (bool, bool) { match p { P::I(x) => (*v == *x, *x == *v), P::U(x) => (*v == *x, *x == *v), P::F(x) => (*v == *x, *x == *v), P::B(x) => (*v == *x, *x == *v), P::S(x) => (*v == *x && *v == x.as_str(), *x == *v && x.as_str() == *v),
+        // a DOM array against a Vec, a slice and (for length 2) a fixed-size array of primitives
+        P::V(x) => { let sl: &[i64] = &x[..]; let mut a = *v == *x && *v == sl; let mut b = *x == *v && sl == *v;
+                     if x.len() == 2 { let arr2: [i64; 2] = [x[0], x[1]]; a = a && *v == arr2; b = b && arr2 == *v; }
+                     (a, b) } } }
+    fn peq(a: &P, b: &P) -> bool { match (a, b) { (P::I(x), P::I(y)) => x == y, (P::U(x), P::U(y)) => x == y, (P::F(x), P::F(y)) => x == y, (P::B(x), P::B(y)) => x == y, (P::S(x), P::S(y)) => x == y, (P::V(x), P::V(y)) => x == y, _ => false } }
+    let kinds = ["i64", "u64", "f64", "bool", "str", "vec"];
+    let k = rng.below(6);
     let p = gen(rng, k);
-    let q = if rng.chance(1, 4) { p.clone() } else { gen(rng, k) };
-    let rk = if rng.chance(1, 2) { k } else { rng.below(5) };
-    let r = if rng.chance(1, 3) && rk == k { p.clone() } else { gen(rng, rk) };
+    // for vectors: often a proper prefix or an extension of p
+    let near = |rng: &mut Rng, p: &P| -> Option<P> { if let P::V(x) = p { let mut y = x.clone(); if rng.chance(1, 2) { y.pop(); } else { y.push(rng.below(4) as i64); } Some(P::V(y)) } else { None } };
+    let q = if rng.chance(1, 4) { p.clone() } else if let (true, Some(n)) = (rng.chance(1, 2), near(rng, &p)) { n } else { gen(rng, k) };
+    let rk = if rng.chance(1, 2) { k } else { rng.below(6) };
+    let r = if rng.chance(1, 3) && rk == k { p.clone() } else if let (true, true, Some(n)) = (rk == k, rng.chance(1, 2), near(rng, &p)) { n } else { gen(rng, rk) };
     let (pt, rt) = (text(&p), text(&r));
     let v1 = tv(&p)?;
     let v2: sonic_rs::Value = sonic_rs::from_str(&pt).ok()?;
@@ -322,6 +363,7 @@ pub fn record(args: &[String]) -> i32 {
             j["ev"] = json!("conv"); j["ty"] = json!(e.name);
             j
         } else {
+            if e.name.starts_with("dom_") { continue; }
             // a valid text of the type (from an arbitrary value, or the type's own generator) then mutated: type-directed near-misses
             let mut text: Vec<u8> = if let Some(c) = e.conv {
                 let j = c(&mut rng);
